@@ -195,6 +195,39 @@ func (e *VerifEnv) ShiftDeadlines(d time.Duration) {
 	}
 }
 
+// VerifExpired describes a fragment whose deadline ExpireOldest moved into the past.
+type VerifExpired struct {
+	Req []byte // the fragment's request bytes (a copy)
+}
+
+// ExpireOldest makes exactly the k earliest deadlines of unanswered fragments pass (they are moved two
+// hours back, which keeps the order of the tree) and runs the expiry scan. Entries of fragments that
+// are already done are left alone: the scan drops them without effect when they reach the head.
+func (e *VerifEnv) ExpireOldest(k int) (expired []VerifExpired) {
+	if timeoutTree.Len() == 0 || k <= 0 {
+		e.el.msgTimeout()
+		return nil
+	}
+	var items []*Frag
+	timeoutTree.AscendGreaterOrEqual(timeoutTree.Min(), func(i llrb.Item) bool {
+		f := i.(*Frag)
+		if !f.Done {
+			items = append(items, f)
+		}
+		return len(items) < k
+	})
+	for _, f := range items {
+		timeoutTree.Delete(f)
+	}
+	for _, f := range items {
+		f.Timeout = f.Timeout.Add(-2 * time.Hour)
+		timeoutTree.ReplaceOrInsert(f)
+		expired = append(expired, VerifExpired{Req: append([]byte{}, f.Req...)})
+	}
+	e.el.msgTimeout()
+	return expired
+}
+
 // Ticker runs eventloop.ticker with the one-second gate opened.
 func (e *VerifEnv) Ticker() {
 	e.el.nextTicker = time.Time{}
@@ -449,4 +482,6 @@ func (v *VerifConn) Writev(bs [][]byte) (int, error) { return v.c.writev(bs) }
 
 // NewMonitoredPool creates a pool exactly as the engine does (engine.newPool), health monitor goroutine included;
 // Pool.Close stops it.
-func (e *VerifEnv) NewMonitoredPool(addr string, isSlave bool) *Pool { return e.eng.newPool(addr, isSlave) }
+func (e *VerifEnv) NewMonitoredPool(addr string, isSlave bool) *Pool {
+	return e.eng.newPool(addr, isSlave)
+}
